@@ -75,13 +75,16 @@ _EQ_CACHE = {}
 
 def equipment_for(s):
     """Span settings of a case -> equipment dict built from gnpy/example-data/eqpt_config.json with overrides"""
-    key = (s['padding'], s['eol'], s['maxLen'], s['powerMode'], s['conIn'], s['conOut'])
+    band = tuple(s.get('siBand') or ())
+    key = (s['padding'], s['eol'], s['maxLen'], s['powerMode'], s['conIn'], s['conOut'], band)
     if key not in _EQ_CACHE:
         import gnpy.tools.json_io as jio
         d = copy.deepcopy(_base_eqpt())
         d['Span'][0].update(padding=s['padding'] / UDB, EOL=s['eol'] / UDB, max_length=s['maxLen'] / 1000,
                             length_units='km', power_mode=bool(s['powerMode']), con_in=s['conIn'] / UDB,
                             con_out=s['conOut'] / UDB)
+        if band:                                               # SI / design band in MHz
+            d['SI'][0].update(f_min=band[0] * 1e6, f_max=band[1] * 1e6)
         for a in d['Edfa']:                                    # exercise the automatic output-VOA optimisation
             if a['type_variety'] in ('std_low_gain', 'std_medium_gain'):
                 a['out_voa_auto'] = True
